@@ -38,11 +38,41 @@ implements is regenerated from the sources (`WfModel/GenResource.lean`).
 -/
 namespace Resource
 
+/-- What a factory returns.  Any Python value is a legal resource value: an optional
+client that is not configured is `None`, a counter starts at `0`, a buffer at `""` or
+`[]`, a feature flag is `False`.  `obj` is an ordinary (truthy) object created by the
+call; `emptyList` is a falsy value that is still a fresh object per call; the others
+are interned singletons, so a second creation is visible only in the number of factory
+calls, never in the identity of what is injected. -/
+inductive Val where
+  | obj
+  | pyNone
+  | zero
+  | emptyStr
+  | emptyList
+  | pyFalse
+deriving DecidableEq, Repr
+
+/-- each call of the factory returns a new object (identity tells creations apart) -/
+def Val.fresh : Val → Bool
+  | .obj => true
+  | .emptyList => true
+  | _ => false
+
+/-- Python truthiness of the value (`bool(v)`) -/
+def Val.truthy : Val → Bool
+  | .obj => true
+  | _ => false
+
 structure Res where
   cached : Bool
   isAsync : Bool
   fails : Bool
   deps : List Nat
+  /-- the value the factory returns.  `_get` tests its two caches by *membership*
+  (`name in self.resources`, `name in self._resolution_cache`), so no transition below
+  reads this field (`C22_value_independent`): a stored `None` is a hit like any other. -/
+  val : Val := .obj
 deriving DecidableEq, Repr
 
 abbrev Graph := List Res
@@ -128,6 +158,14 @@ inductive Act where
   | tick
   | resume (t : Nat)
 deriving DecidableEq, Repr
+
+/-- the same graph with every factory returning an ordinary object -/
+def Res.eraseVal (r : Res) : Res := { r with val := .obj }
+
+def eraseVals (g : Graph) : Graph := g.map Res.eraseVal
+
+/-- the value injected for resource `x` -/
+def valueOf (g : Graph) (x : Nat) : Val := (g[x]?.map (·.val)).getD .obj
 
 /-! ## the manager's primitives -/
 
